@@ -1,4 +1,4 @@
 SPECIFICATION TraceSpec
-INVARIANTS HarnessTwoOrders C39_Exact C39_PrevQuota C39_StakeOrdered C39_Deterministic C39_TieBySeedOnly C39_RelabelInvariant
+INVARIANTS HarnessTwoOrders C39_Exact C39_PrevQuota C39_StakeOrdered C39_Deterministic C39_HistoryFree C39_TieBySeedOnly C39_RelabelInvariant
 POSTCONDITION Accepted
 CHECK_DEADLOCK FALSE
